@@ -6,3 +6,5 @@ import GontainerModel.Props.C04
 #print axioms GM.C04.decorator_order_compiled
 #print axioms GM.C04.decorator_order_across_files
 #print axioms GM.C04.tags_copied
+#print axioms GM.C04.tagged_at_run_time
+#print axioms GM.C04.decorators_at_run_time
